@@ -8,6 +8,7 @@ S=/root/scratch/repo-$$
 mkdir -p $S/crates
 cp /repo/Cargo.toml /repo/Cargo.lock $S/
 cp -r /repo/crates/ordinals $S/crates/
+cp -r /repo/src $S/src
 cp $S/$F $S/$F.orig
 sed -i -e "$E" $S/$F
 if cmp -s $S/$F $S/$F.orig; then echo "MUTATION DID NOT APPLY"; rm -rf $S; exit 3; fi
@@ -18,6 +19,6 @@ VERIF_REPO=$S /verif/check $P --tier $T > /root/scratch/mut-$$.out 2> /root/scra
 rc=$?
 echo "rc=$rc"; grep -E "^(VIOLATION|KNOWN)" /root/scratch/mut-$$.out; grep UNDECIDED /root/scratch/mut-$$.err | head -5
 rm -rf $S /root/scratch/mut-$$.out /root/scratch/mut-$$.err
-# restore the working overlay to the real tree
+# restore the working overlays to the real tree
 python3 /verif/tools/overlay.py > /dev/null
 exit 0
